@@ -264,6 +264,19 @@ PROPS['C09'] = dict(
     level_text='Bounded symbolic exploration under sanitizers: because every feasible value-dependent path of every enumerated structure is executed (the solver decides which paths exist), an out-of-bounds index, use after free, signed overflow or null dereference on any of them is hit and reported with a model of the path; division by zero is a solver query at each division. Functional obligations failing in these builds are attributed to their own properties.',
     level_note='Sanitizers observe the concrete memory behaviour of each symbolic path; indices as 64-bit symbolic values are Engine B\'s part; trusted: g++ sanitizer runtimes, libz3, sym.h/harness.h.')
 
+B_TRUST = ['clang 14 lowering at -O1 (the IR is what is verified; the native replay library is built from the same translation unit)', 'irsym/irsym.py IR semantics (validated differentially against the native build on every run)',
+           'the environment stubs listed in evidence', 'z3 5.1 bit-vector/array/FP decision procedures', 'the specifications in irsym/harness/*.py']
+PROPS['C13'] = dict(
+    engine='B', technique='symbolic execution of the LLVM IR clang emits for wrappers around the real Support<double>/Grid<double> members; indices, window bounds and grid size are 64-bit bit-vector variables; obligations against widened (non-wrapping) specifications; native ctypes replay',
+    irsym=[dict(module='c13', params=dict(quick=dict(nmax_data=3), thorough=dict(nmax_data=4)))],
+    bounds=dict(quick='every public member of Support<double>: ALL 2^64 values of every index argument and of start/end of up to three supports (assumed: representation invariant), grid sizes 2..2^60-1 with abstract grid data wherever the function does not read grid points (any dereference would be reported); equality of supports on two distinct grid vectors and Grid::findElement/operator== with real element loops: grid sizes <= 3, points symbolic IEEE doubles (strictly increasing)',
+                thorough='grid sizes <= 4 where grid data is read'),
+    outside='grids with more than 2^60-1 points (vector<double>::max_size()); more than 4 points where grid data is read; scalar types other than double (the index logic does not depend on T)',
+    assumptions=['pre-state satisfies the class invariant ((start=0 and end=0) or start<end<=n, n>=2)', 'every grid is shared (use_count >= 2), so the last-owner release path is not taken', 'allocation does not fail'],
+    trusted=B_TRUST,
+    level_text='Bounded symbolic model checking of the compiled code: the window algebra and the index conversions are decided for every 64-bit index and window (not a sample), which is where the interesting inputs are single points of a 2^64 space (index+1 wrapping to 0). Union/intersection are proved equal to hull/meet-with-empty-normalisation, commutative (reversed call), idempotent (aliased call), associative (two chained real calls each way); equality, accessors, size/interval count and iteration bounds are proved to describe the same window; checked accessors must throw for every index outside.',
+    level_note='64-bit indices exact; grid size abstract up to 2^60 where data is not read, <=3 (4) points otherwise; trusted: clang -O1 lowering, irsym executor (differentially validated), stubs, z3.')
+
 _NOT_BUILT = 'check not built yet in this round (planned, see DESIGN.md section 5)'
 NOT_APPLICABLE = {
     'C16': 'floating-point forward-error bound: bit-precise FP or (1+delta) NRA encodings of even the smallest instance return unknown/timeout on every installed solver (DESIGN.md section 7)',
